@@ -1908,6 +1908,29 @@ def pickled_state(rep, ex: Explorer):
             n += 1
             got = obj.attrs.get(name) if isinstance(obj, HObj) else None
             rep.check(got == want, "STATE.pickled", site2, f"attribute {name}", "restoring a state puts every entry of it back on the object", extracted=repr(got), required=repr(want), function=site2)
+    # --- the same on a concrete state whose rank table is partial (a custom ranking given for some worlds only, a marginal of a
+    # partly ranked object): what comes back is that table - no world added, none dropped, no rank changed
+    def setup3(I):
+        ranks = I.alloc(HDict(entries={"10": Const(1), "11": Const(2)}))
+        st = I.alloc(HDict(entries={"ranks": ranks, "signature": I.new_list([Const("a"), Const("b")]), "conditionals": Const(None), "ranking_system": Const("custom"),
+                                    "_metadata": I.alloc(HDict()), "_state": I.alloc(HDict())}))
+        s_ = I.alloc(HObj(CUS, {}))
+        held["s3"] = s_
+        return [s_, st], {}
+
+    for p in ex.run(qual2, setup3, summaries=_summ(), key="setstate-concrete"):
+        if p.outcome[0] != "return":
+            rep.violation("STATE.pickled", site2, "outcome (partial rank table)", "every state can be restored", extracted=f"{p.outcome[0]} {p.outcome[1]!r}"[:80], required="return", function=site2)
+            continue
+        obj = p.state.heap.get(held["s3"].oid)
+        rk = obj.attrs.get("ranks") if isinstance(obj, HObj) else None
+        d_ = p.state.heap.get(rk.oid) if isinstance(rk, Ref) else None
+        if not (isinstance(d_, HDict) and not d_.each and not d_.sym):
+            raise AnalysisError(f"{site2}: the rank table of a restored object is not a mapping the analysis can read")
+        got = {k: (v.value if isinstance(v, Const) else repr(v)) for k, v in d_.entries.items()}
+        n += 1
+        rep.check(got == {"10": 1, "11": 2}, "STATE.pickled", site2, "partial rank table", "restoring a state gives back the rank table that was saved: no world added, dropped or re-ranked (an added unranked world makes a custom ranking unusable)",
+                  extracted=repr(got)[:120], required="{'10': 1, '11': 2}", function=site2)
     # --- a subclass that overrides either method changes what is pickled for its objects: decided by a round trip on a small
     # concrete object of that class (state taken by the most derived __getstate__, put on a fresh object by the most derived
     # __setstate__): every attribute comes back with the same content.  The partition holds a conditional that is not among
